@@ -60,6 +60,38 @@ func (c *Ctx) computeInfeasible() {
 				continue
 			}
 			bin, ok := iff.Cond.(*ssa.BinOp)
+			if ok {
+				// two integer constants compared (`switch kind {…}` in a helper inlined with a constant kind)
+				if xk, isX := constInt(stripConv(c.Resolve(bin.X))); isX {
+					if yk, isY := constInt(stripConv(c.Resolve(bin.Y))); isY && isIntType(bin.X.Type()) && isIntType(bin.Y.Type()) {
+						holds, known := false, true
+						switch bin.Op {
+						case token.EQL:
+							holds = xk == yk
+						case token.NEQ:
+							holds = xk != yk
+						case token.LSS:
+							holds = xk < yk
+						case token.LEQ:
+							holds = xk <= yk
+						case token.GTR:
+							holds = xk > yk
+						case token.GEQ:
+							holds = xk >= yk
+						default:
+							known = false
+						}
+						if known {
+							if holds {
+								infeasibleEdges[b] = 1 + 1
+							} else {
+								infeasibleEdges[b] = 0 + 1
+							}
+							continue
+						}
+					}
+				}
+			}
 			if !ok || (bin.Op != token.NEQ && bin.Op != token.EQL) {
 				continue
 			}
